@@ -5,7 +5,7 @@ from .. import impl, coqrun
 MODS = ['Model.Ast', 'Model.Fmt', 'Model.Eval']
 RULE = ('cases = (a) unguarded mixin recursion through cycles of length 1-6 in every shape (direct, through a nested rule, rulesets used as mixins, '
         'mixed), (b) guarded recursion of depth limit-4 .. limit+4 and small depths, (c) import cycles of length 1-6 (bare names, ./ prefixes, '
-        'sub-directories, self import) and acyclic chains of depth limit-2 .. limit+3, (d) variable cycles of length 1-6 at top level / in blocks '
+        'sub-directories, self import) and acyclic chains of depth limit-2 .. limit+3, (d) variable cycles of length 1-6 at top level / in blocks, branching cycles (every variable mentions the next 2 or 3 times, length 1-4) and acyclic branching definitions '
         'and acyclic chains of length limit-4 .. limit+2 (the last family also against the Coq model); every case under a hard wall-clock limit; '
         'expected: CompilationError for runaway references, complete expansion below the limits; distinct = distinct program; non-trivial = cycle length >= 2 or depth within 2 of a limit')
 ASSUMPTIONS = ['wall-clock limit per case: 20 s (a hang or a RecursionError / other escape is a violation)']
@@ -37,6 +37,26 @@ def guarded(n, rng):
 def var_cycle(k, in_block):
     defs = ''.join('@c%d: @c%d;\n' % (i, (i + 1) % k) for i in range(k))
     return ('.x{\n%swidth: @c0;\n}\n' % defs) if in_block else (defs + '.x{width: @c0}\n')
+
+
+def var_bcycle(k, b, in_block):
+    """every variable of the cycle mentions the next one b times: the token list grows b-fold per substitution round"""
+    defs = ''.join('@c%d: %s;\n' % (i, ' '.join(['@c%d' % ((i + 1) % k)] * b)) for i in range(k))
+    return ('.x{\n%swidth: @c0;\n}\n' % defs) if in_block else (defs + '.x{width: @c0}\n')
+
+
+def var_bcycle_tree(k, b, in_block):
+    sp = ' :: VT %s :: ' % coqrun.coq_str(' ')
+    defs = ['NVar %s (%s :: nil)' % (coqrun.coq_str('@c%d' % i), sp.join(['VVar %s' % coqrun.coq_str('@c%d' % ((i + 1) % k))] * b)) for i in range(k)]
+    prop = 'NProp %s [VVar %s] false' % (coqrun.coq_str('width'), coqrun.coq_str('@c0'))
+    if in_block:
+        return '[(NBlock [%s] [%s])]' % (coqrun.coq_str('.x'), '; '.join('(%s)' % d for d in defs + [prop]))
+    return '[' + '; '.join('(%s)' % d for d in defs) + '; (NBlock [%s] [(%s)])]' % (coqrun.coq_str('.x'), prop)
+
+
+def var_btree(depth, b):
+    """acyclic: b^(depth-1) leaves"""
+    return ''.join('@t%d: %s;\n' % (i, ' '.join(['@t%d' % (i + 1)] * b)) for i in range(1, depth)) + '@t%d: 1px;\n.x{width:@t1}\n' % depth
 
 
 def var_chain(k):
@@ -72,6 +92,12 @@ def run(ctx):
     for k in range(1, 7):
         for blk in (False, True):
             cases.append(('variable cycle', var_cycle(k, blk), 'error', {'k': k, 'tree': var_cycle_tree(k, blk)}))
+    for k in range(1, 5):
+        for b in (2, 3):
+            for blk in (False, True):
+                cases.append(('branching variable cycle', var_bcycle(k, b, blk), 'error', {'k': max(k, 2), 'tree': var_bcycle_tree(k, b, blk)}))
+    for depth, b in ((3, 2), (8, 2), (11, 2), (7, 3)):
+        cases.append(('branching acyclic variables', var_btree(depth, b), ('okn', b ** (depth - 1)), {'k': depth}))
     for k in sorted(set([1, 2, 3, 10] + list(range(LIMIT_VAR - 4, LIMIT_VAR + 3)))):
         cases.append(('variable chain', var_chain(k), ('ok1',) if k < LIMIT_VAR else 'error', {'k': k, 'tree': var_chain_tree(k)}))
     base = tempfile.mkdtemp(prefix='lessverif-c20-')
@@ -105,6 +131,8 @@ def run(ctx):
                 ok = a.get('r') == 'error'
             elif exp[0] == 'ok':
                 ok = a.get('r') == 'ok' and (a['css'].count('w:') == exp[1] if kind == 'guarded recursion' else a['css'].count('{') == exp[1])
+            elif exp[0] == 'okn':
+                ok = a.get('r') == 'ok' and a['css'].count('1px') == exp[1]
             elif exp[0] == 'ok1':
                 ok = a.get('r') == 'ok' and 'width: 1px' in a['css']
             if not ok:
